@@ -9,7 +9,7 @@ META = {
                    '(R01.2) each operator lexeme denotes the documented operation along the whole chain lexer -> parser -> compiler -> VM '
                    '-> object layer (15-cell table, composed from extracted maps); (R01.3) operands reach the operation in source order on '
                    'the generic and the fused path; (R01.4) the value of a program is the last popped expression-statement value.'
-                   ' (R01.5) expression statements end in Pop; (R01.6) every obligation of the compiler shape analysis and the control-flow graph of each if/loop/function arm hold (what C02, C09, C11, C12 check in detail); (R01.7) literals reach the program by value and the constant pool holds literal payloads as written; (R01.8) integer results pass the checked encoder.',
+                   ' (R01.5) expression statements end in Pop; (R01.6) every obligation of the compiler shape analysis and the control-flow graph of each if/loop/function arm hold (what C02, C09, C11, C12 check in detail); (R01.7) literals reach the program by value and the constant pool holds literal payloads as written; (R01.8) integer results pass the checked encoder. (R01.9) the decoders of immediates (as_int / as_bool / as_function) run only behind a test of the matching tag, on fast paths too; (R01.10) whatever the name lookup reads besides the scope structure (a cache of answers) is kept in step by every method that changes the structure.',
     'exhaustive': True,
     'not_decided': ['equality of results with a definitional evaluation for all programs (values of variables, output text, error position, '
                     'composition of features)'],
